@@ -10,10 +10,11 @@
       internal/rules/mechanisms/oauth2/*_matcher.go     exact / hierarchic / wildcard scope matching
       internal/rules/mechanisms/authenticators/subject_info.go   subject id from the verified payload
 
-    Faithful to the code as it is.  The flags [fixed_F1]/[fixed_F2] select between the behaviour
-    before (false) and after (true) the fix: commits a3a89b7 (C05-F1, fixes/C05-F1.diff) and
-    f16c3cc (C05-F2, fixes/C05-F2.diff); /repo now carries both, so [authenticate] is the
-    variant (true, true) and [authenticate_pinned] the former behaviour.
+    Faithful to the code as it is, i.e. with the fix: commits a3a89b7 (C05-F1), f16c3cc (C05-F2) and d55629a
+    (C05-F5).  The flags [fixed_F1]/[fixed_F2] select between the behaviour with (true) and without (false)
+    a3a89b7 / f16c3cc; the model is not parametric in d55629a.  [authenticate] is the variant (true, true);
+    [authenticate_pinned] is the code as it is with a3a89b7 and f16c3cc reverted (the later repair d55629a
+    kept) — not a state /repo was ever in.
 
     Oracles (data of a case, never axioms): whether the compact serialisation
     parses ([CUnparsable]), under which published key material the signature
@@ -349,10 +350,11 @@ Definition authenticate_gen (f1 f2 : bool) (cf : config) (ks : list jwk) (now : 
          end
   end.
 
-(** the code as it is (with the fix: commits a3a89b7 and f16c3cc) *)
+(** the code as it is (with the fix: commits a3a89b7, f16c3cc and d55629a) *)
 Definition authenticate := authenticate_gen true true.
 
-(** the code as it was before those two commits (pinned for the record of C05-F1 / C05-F2) *)
+(** the code as it is with a3a89b7 and f16c3cc reverted, the later repair d55629a kept (pinned for the record of
+    C05-F1 / C05-F2; not a state /repo was ever in) *)
 Definition authenticate_pinned := authenticate_gen false false.
 
 (* ------------------------------------------------------------------ observables *)
